@@ -42,55 +42,62 @@ Definition utf8_encode (cp : N) : bytes :=
   else [byteN (0xF0 + cp / 262144); byteN (0x80 + (cp / 4096) mod 64); byteN (0x80 + (cp / 64) mod 64); byteN (0x80 + cp mod 64)].
 Definition REPL : bytes := [xef; xbf; xbd].
 
-(* after the opening quote: decoded content and the rest after the closing quote *)
+(* after the opening quote: decoded content and the rest after the closing quote.
+   One step of the scanner: done (content, rest), or continue with (rest, accumulator). *)
+Definition ps_step (s : bytes) (acc : bytes) : option (sum (bytes * bytes) (bytes * bytes)) :=
+  match s with
+  | [] => None
+  | b :: r =>
+      if Byte.eqb b QUOTE then Some (inl (rev acc, r))
+      else if Byte.eqb b BSLASH then
+        match r with
+        | e :: r' =>
+            if Byte.eqb e QUOTE || Byte.eqb e BSLASH || Byte.eqb e x2f then Some (inr (r', e :: acc))
+            else if Byte.eqb e x62 then Some (inr (r', x08 :: acc))
+            else if Byte.eqb e x66 then Some (inr (r', x0c :: acc))
+            else if Byte.eqb e x6e then Some (inr (r', NL :: acc))
+            else if Byte.eqb e x72 then Some (inr (r', CR :: acc))
+            else if Byte.eqb e x74 then Some (inr (r', TAB :: acc))
+            else if Byte.eqb e x75 then
+              match hex4 r' with
+              | Some (cp, r'') =>
+                  if (0xD800 <=? cp) && (cp <=? 0xDBFF) then
+                    (* high surrogate: combine with a following \uDC00-\uDFFF, else U+FFFD *)
+                    match r'' with
+                    | b1 :: b2 :: r3 =>
+                        if Byte.eqb b1 BSLASH && Byte.eqb b2 x75 then
+                          match hex4 r3 with
+                          | Some (lo, r4) =>
+                              if (0xDC00 <=? lo) && (lo <=? 0xDFFF)
+                              then Some (inr (r4, rev (utf8_encode (0x10000 + (cp - 0xD800) * 1024 + (lo - 0xDC00))) ++ acc))
+                              else Some (inr (r'', rev REPL ++ acc))
+                          | None => Some (inr (r'', rev REPL ++ acc))
+                          end
+                        else Some (inr (r'', rev REPL ++ acc))
+                    | _ => Some (inr (r'', rev REPL ++ acc))
+                    end
+                  else if (0xDC00 <=? cp) && (cp <=? 0xDFFF) then Some (inr (r'', rev REPL ++ acc))
+                  else Some (inr (r'', rev (utf8_encode cp) ++ acc))
+              | None => None
+              end
+            else None
+        | [] => None
+        end
+      else if bN b <? 0x20 then None
+      else if bN b <? 0x80 then Some (inr (r, b :: acc))
+      else match decode_multi s with
+           | Some n => Some (inr (skipn n s, rev (firstn n s) ++ acc))
+           | None => None
+           end
+  end.
 Fixpoint p_string (fuel : nat) (s : bytes) (acc : bytes) : option (bytes * bytes) :=
   match fuel with
   | O => None
   | S f =>
-      match s with
-      | [] => None
-      | b :: r =>
-          if Byte.eqb b QUOTE then Some (rev acc, r)
-          else if Byte.eqb b BSLASH then
-            match r with
-            | e :: r' =>
-                if Byte.eqb e QUOTE || Byte.eqb e BSLASH || Byte.eqb e x2f then p_string f r' (e :: acc)
-                else if Byte.eqb e x62 then p_string f r' (x08 :: acc)
-                else if Byte.eqb e x66 then p_string f r' (x0c :: acc)
-                else if Byte.eqb e x6e then p_string f r' (NL :: acc)
-                else if Byte.eqb e x72 then p_string f r' (CR :: acc)
-                else if Byte.eqb e x74 then p_string f r' (TAB :: acc)
-                else if Byte.eqb e x75 then
-                  match hex4 r' with
-                  | Some (cp, r'') =>
-                      if (0xD800 <=? cp) && (cp <=? 0xDBFF) then
-                        (* high surrogate: combine with a following \uDC00-\uDFFF, else U+FFFD *)
-                        match r'' with
-                        | b1 :: b2 :: r3 =>
-                            if Byte.eqb b1 BSLASH && Byte.eqb b2 x75 then
-                              match hex4 r3 with
-                              | Some (lo, r4) =>
-                                  if (0xDC00 <=? lo) && (lo <=? 0xDFFF)
-                                  then p_string f r4 (rev (utf8_encode (0x10000 + (cp - 0xD800) * 1024 + (lo - 0xDC00))) ++ acc)
-                                  else p_string f r'' (rev REPL ++ acc)
-                              | None => p_string f r'' (rev REPL ++ acc)
-                              end
-                            else p_string f r'' (rev REPL ++ acc)
-                        | _ => p_string f r'' (rev REPL ++ acc)
-                        end
-                      else if (0xDC00 <=? cp) && (cp <=? 0xDFFF) then p_string f r'' (rev REPL ++ acc)
-                      else p_string f r'' (rev (utf8_encode cp) ++ acc)
-                  | None => None
-                  end
-                else None
-            | [] => None
-            end
-          else if bN b <? 0x20 then None
-          else if bN b <? 0x80 then p_string f r (b :: acc)
-          else match decode_multi s with
-               | Some n => p_string f (skipn n s) (rev (firstn n s) ++ acc)
-               | None => None
-               end
+      match ps_step s acc with
+      | Some (inl res) => Some res
+      | Some (inr (s', acc')) => p_string f s' acc'
+      | None => None
       end
   end.
 
